@@ -1,7 +1,6 @@
 import EdsModel
 import EdsProofs.ReconcileEds
 import EdsProofs.PodBuild
-import EdsProps.C12
 /-
   C13 — One replica set per template, faithful to it, never collected while in use.
 
